@@ -12,7 +12,10 @@ assignment of bodies to one or two function symbols is enumerated as well.
 
 Every case is run through MGSubstituter and MSSubstituter by several routes
 (FNode.substitute, env.substituter.substitute, a fresh instance, an instance kept for the
-whole shard); some parts run in an Environment whose SubstituterClass is MSSubstituter.
+whole shard): all six routes for every one-key map and every bare interpretation set, a
+rotating pair of routes (one per strategy) for the larger maps; some parts run in an
+Environment whose SubstituterClass is MSSubstituter (then FNode.substitute and the
+instantiation of interpretation bodies are most-specific).
 
 Oracles (none of them calls the substituter):
  (b) order     the result IS the formula computed by RefSub below, a recursive definition of
@@ -553,11 +556,13 @@ def _finish(p, values, keysyms, seeds=(), bodies=None):
     return p
 
 
-def p_bool(env, nv=4, ite=True):
+def p_bool(env, nv=4, ite=True, true=True):
     p = Profile("c05-bool", env)
     m = p.m
     a, b, c, d = [p.sym(n, BOOL) for n in "abcd"]
-    p.leaf(BOOL, a, b, m.TRUE())
+    p.leaf(BOOL, a, b)
+    if true:
+        p.leaf(BOOL, m.TRUE())
     p.op("not", [BOOL], BOOL, lambda m, x: m.Not(x))
     p.op("and", [BOOL, BOOL], BOOL, lambda m, x, y: m.And(x, y))
     p.op("or", [BOOL, BOOL], BOOL, lambda m, x, y: m.Or(x, y))
@@ -648,13 +653,15 @@ def p_uf(env, nv=3, fi=False):
     return _finish(p, {INT: iv[:nv], BOOL: [c]}, [x, y, z], seeds, bodies)
 
 
-def p_quant(env, nv=3, ints=True):
+def p_quant(env, nv=3, ints=True, blocks=True):
     """blocks (quantified leaves) make nested and shadowing binders appear at depth 1-2"""
     p = Profile("c05-quant", env)
     m = p.m
     a, b, c = [p.sym(n, BOOL) for n in "abc"]
     x, y, z = [p.sym(n, INT) for n in "xyz"]
-    p.leaf(BOOL, a, b, m.ForAll([a], m.Or(a, b)), m.Exists([b], m.And(a, b)))
+    p.leaf(BOOL, a, b)
+    if blocks:
+        p.leaf(BOOL, m.ForAll([a], m.Or(a, b)), m.Exists([b], m.And(a, b)))
     p.op("not", [BOOL], BOOL, lambda m, s: m.Not(s))
     p.op("and", [BOOL, BOOL], BOOL, lambda m, s, t: m.And(s, t))
     p.op("or", [BOOL, BOOL], BOOL, lambda m, s, t: m.Or(s, t))
@@ -693,10 +700,6 @@ def _names(*ns):
     return lambda o: o.name in ns
 
 
-def _notnames(*ns):
-    return lambda o: o.name not in ns
-
-
 def parts(ctx):
     q = ctx.quick
     ps = []
@@ -704,8 +707,8 @@ def parts(ctx):
     B3 = ("not", "and", "or")
     # keys = largest map; env = default strategy of the Environment; fi = enumerate interpretations
     A(dict(name="bool-d1-k3", profile=lambda e: p_bool(e, 4 if q else 6), depth=1, keys=3, shards=24 if q else 64))
-    A(dict(name="bool-d2-k2", profile=lambda e: p_bool(e, 3 if q else 4), depth=2, keys=2, shards=48,
-           mid_ops=_names(*B3), top_ops=_names(*B3) if q else None, max_new=1))
+    A(dict(name="bool-d2-k2", profile=lambda e: p_bool(e, 3 if q else 4), depth=2, keys=2, shards=48 if q else 96,
+           mid_ops=_names(*B3), top_ops=_names(*B3), max_new=1 if q else None))
     A(dict(name="bool-d1-k2-ms", profile=lambda e: p_bool(e, 5), depth=1, keys=2, shards=8, env="ms"))
     A(dict(name="lia-d2-k2", profile=lambda e: p_lia(e, 2 if q else 3), depth=2, keys=2, shards=48,
            mid_ops=_names("plus", "le", "not") if q else _names("plus", "times", "le", "not"),
@@ -728,6 +731,16 @@ def parts(ctx):
     A(dict(name="uf-interp-d1-k1-ms", profile=lambda e: p_uf(e, 1 if q else 2, fi=nb), depth=1, keys=1, fi=True,
            shards=48, env="ms"))
     if not q:
+        A(dict(name="bool-d2-ite-k2", profile=lambda e: p_bool(e, 4), depth=2, keys=2, shards=64,
+               mid_ops=_names(*B3), top_ops=_names("ite"), max_new=1))
+        A(dict(name="bool-d3-k2", profile=lambda e: p_bool(e, 2, ite=False, true=False), depth=3, keys=2, shards=128,
+               mid_ops=_names("not", "and"), top_ops=_names(*B3), max_new=1))
+        A(dict(name="quant-int-d2-k2", profile=lambda e: p_quant(e, 2), depth=2, keys=2, shards=128,
+               mid_ops=_names("le", "plus", "and", "forall_x", "exists_b"),
+               top_ops=_names("and", "not", "forall_x", "exists_x", "forall_ya", "exists_ya", "forall_a"), max_new=1))
+        A(dict(name="quant-d3-k1", profile=lambda e: p_quant(e, 3, ints=False, blocks=False), depth=3, keys=1, shards=128,
+               mid_ops=_names("and", "forall_a"),
+               top_ops=_names("and", "or", "not", "forall_a", "exists_a", "forall_b", "exists_ab"), max_new=1))
         A(dict(name="quant-d1-k3", profile=lambda e: p_quant(e, 2, ints=False), depth=1, keys=3, shards=64))
         A(dict(name="uf-d1-k3", profile=lambda e: p_uf(e, 2), depth=1, keys=3, shards=64))
         A(dict(name="bv-d1-k3", profile=lambda e: p_bv(e, 2), depth=1, keys=3, shards=64))
@@ -1028,7 +1041,7 @@ def run(ctx):
                 "are profile symbols or sub-terms of the formula or of the formula after applying the rest of "
                 "the map, values from the part's value pool; uf-interp parts: x all acyclic assignments of "
                 "bodies to 1-2 function symbols (x all 1-key maps). Each case goes through both strategies "
-                "and 6 routes. A case is non-trivial when some strategy returned a formula different from the "
+                "(6 routes for 1-key maps, a rotating pair of routes for larger maps). A case is non-trivial when some strategy returned a formula different from the "
                 "input; outcome labels show how many cases distinguish MGS from MSS, are symbol-keyed "
                 "(lemma evaluated under every interpretation) or capture cases (order oracle only)")
     ctx.assumptions = ["reference semantics mc/core/refsem.py; Int pool {-1,0,2}; Int quantifiers over {0,1} and {-1,0,2}",
